@@ -6,15 +6,16 @@ import FluteModel.Props.C04WireAbs
 import FluteModel.Lemmas.ObjRecvPanicFree
 import FluteModel.Lemmas.RecvAllObj
 import FluteModel.Lemmas.RecvWhole
+import FluteModel.Lemmas.DrainObjInst
 /-
   C04, THE WHOLE CALL (review batch 2: "no statement covers parse → Receiver.push → ObjectReceiver → BlockWriter → ring
   as ONE call").  Integrator: agent path/ring.  Nothing here edits an owner's model; this file composes
 
     bytes ──Alc.parseAlcPkt (wire)──▶ AlcPkt ──Recv.ofAlc/classify (recv)──▶ Recv.Pkt ──Recv.push (recv)──▶ registries
-        ──Full.iface (recv) = ObjRecv.push / attachFdt (orecv)──▶ BlockDecoder / BlockWriter / decompressor ring (orecv, ring)
+        ──(Full.iface P) (recv) = ObjRecv.push / attachFdt (orecv)──▶ BlockDecoder / BlockWriter / decompressor ring (orecv, ring)
 
   `pushDataWhole` is that composition as ONE function of the datagram bytes in which a panic or a hang ANYWHERE - parser,
-  session level, or inside an ObjectReceiver (which `Full.iface` records by freezing the object, `fault := true`) - is the
+  session level, or inside an ObjectReceiver (which `(Full.iface P)` records by freezing the object, `fault := true`) - is the
   result `.error`.  `push_data_total`: for EVERY byte string, every sane caller clock, every XML-parser answer and every state
   reachable from `Receiver::new` by ANY history of push_data / cleanup calls, the result is `.ok`.
 
@@ -27,7 +28,7 @@ import FluteModel.Lemmas.RecvWhole
   COMPONENT LEMMAS ARE COLLECTED IN `structure Interfaces` (one field per owner lemma) and the composition is proved from them;
   `interfaces : Interfaces` then DISCHARGES every field from the owners' theorems:
     * `inv_new / push_total / attach_total`   orecv: `ObjRecv.tinv_new`, `tinv_push`, `tinv_attachFdt` (OInv = `TInv`, PktOK = `WfPkt`,
-                                                FileOK = `WfFile`; Lemmas/ObjRecvPanicFree.lean) with `fullDzOK`
+                                                FileOK = `WfFile`; Lemmas/ObjRecvPanicFree.lean) with `D`
     * `parsed_pkt_ok`                         wire: `toPkt_ofAlc_facts` (Props/C04WireAbs.lean): an EXT_FTI the parser accepts has
                                                 transfer length < 2^48 and E < 2^16
   STILL A HYPOTHESIS of the closed theorems (`push_data_total_closed`), by name:
@@ -42,26 +43,32 @@ import FluteModel.Lemmas.RecvWhole
   NOT COVERED (by construction of the owners' models, stated so that it is not hidden):
     * (closed since) the object inside an `FdtReceiver` (TOI 0) is an `ObjRecv` object too (`Full.push0`, orecv's adapter
       `Full.fdtEntry0`); `hasFault` and the invariant cover it (`reachable_fdt_objects_healthy`);
-    * `Full.params` decodes No-Code only (other codecs "nothing decodable", content encodings answer `Err`): third-party codec
-      panics (review H1/H2: raptorq base.rs:137, decoder.rs:400) are outside the model - findings, not theorems;
+    * (closed since, review batch 3) the closed theorems hold for EVERY parameter set `P` of the object model - any `Codec`
+      (whatever the FEC decoders answer), any writer environment (builder answers, failing `open` / `write`, MD5 on/off), any
+      decompressor meeting `DzOK P` (contract `DzContract` + state-dependent inner fuel; satisfiable for data-producing
+      decompressors, see the examples); `Full.params0` is only the instance the `recv` driver runs.  What stays outside:
+      the `Codec` functions are TOTAL by type, so a PANIC inside a third-party codec (review H1/H2: raptorq base.rs:137,
+      decoder.rs:400, repaired in /repo by range checks) is not expressible - findings / repairs, not theorems;
     * `MultiReceiver::push` on top: agent tsi's `Flute.Props.C04.Multi.multi_push_total` gives the session-level statement for any
       `ObjIface` (instantiated below); the object-fault invariant is threaded through the MultiRecv table in Props/C04MultiWhole.lean.
 -/
 namespace Flute.Props.C04.Whole
 open Flute Flute.Recv Flute.Recv.AllObj Flute.Recv.Whole
 
+variable {P : ObjRecv.Params}
+
 /-- **push_data_total - the whole call.**  For EVERY byte string `d`, every caller clock in range, every admissible
     XML-parser answer (`AnsOK`), and every state reachable from `Receiver::new(cfg)` (`object_max_cache_size < 2^63`) by any history of `push_data` /
     `cleanup` calls: the composed model of `Receiver::push_data(d, now)` - parser, TSI test, session registries, FDT
     receivers, every ObjectReceiver with its BlockDecoders, BlockWriter, decompressor ring - returns `Ok` or `Err`:
     no panic, no hang, at any level; and the state it leaves is reachable again. -/
-theorem push_data_total (X : Interfaces) (tsi : Nat) (cfg : Config) (hc : cfg.maxCache < 2 ^ 63)
-    (s : State Full.Any) (hs : Reachable X tsi cfg s) (d : List UInt8) (now : Int) (hn : TimeSane now) (ans : FdtAns)
+theorem push_data_total (X : Interfaces P) (tsi : Nat) (cfg : Config) (hc : cfg.maxCache < 2 ^ 63)
+    (s : State (Full.Any P)) (hs : Reachable X tsi cfg s) (d : List UInt8) (now : Int) (hn : TimeSane now) (ans : FdtAns)
     (hans : AnsOK X ans) :
     ∃ s' r evs, pushDataWhole tsi s d now ans = .ok (s', r, evs) ∧ Reachable X tsi cfg s' := by
   have hw := reachable_winv X cfg hc tsi s hs
-  obtain ⟨s', r, evs, h⟩ := Flute.Props.C04.push_data_total Full.iface Full.completeSound tsi s d now ans hw.good hn
-  have hstep : step Full.iface s ((BOp.data d now ans).abs tsi) = .ok (s', r, evs) := by
+  obtain ⟨s', r, evs, h⟩ := Flute.Props.C04.push_data_total (Full.iface P) (Full.completeSound P) tsi s d now ans hw.good hn
+  have hstep : step (Full.iface P) s ((BOp.data d now ans).abs tsi) = .ok (s', r, evs) := by
     rw [← push_data_bytes_is_step]; exact h
   have hn' : TimeSane ((BOp.data d now ans).abs tsi).now := by simpa [BOp.abs, Op.now] using hn
   have hr : Reachable X tsi cfg s' := Reachable.step s s' _ r evs hs hn' hans hstep
@@ -72,12 +79,12 @@ theorem push_data_total (X : Interfaces) (tsi : Nat) (cfg : Config) (hc : cfg.ma
   simp only [hasFault_false X s' hw'.objs hw'.fobjs, Bool.false_eq_true, if_false]
 
 /-- the same for `Receiver::cleanup` -/
-theorem cleanup_total (X : Interfaces) (tsi : Nat) (cfg : Config) (hc : cfg.maxCache < 2 ^ 63)
-    (s : State Full.Any) (hs : Reachable X tsi cfg s) (now : Int) (hn : TimeSane now) (stale : Stale) :
+theorem cleanup_total (X : Interfaces P) (tsi : Nat) (cfg : Config) (hc : cfg.maxCache < 2 ^ 63)
+    (s : State (Full.Any P)) (hs : Reachable X tsi cfg s) (now : Int) (hn : TimeSane now) (stale : Stale) :
     ∃ s' evs, cleanupWhole s now stale = .ok (s', evs) ∧ Reachable X tsi cfg s' := by
   have hw := reachable_winv X cfg hc tsi s hs
-  obtain ⟨s', evs, h⟩ := recv_cleanup_total Full.iface s now stale hw.good hn
-  have hstep : step Full.iface s ((BOp.cleanup now stale).abs tsi) = .ok (s', .ok, evs) := by
+  obtain ⟨s', evs, h⟩ := recv_cleanup_total (Full.iface P) s now stale hw.good hn
+  have hstep : step (Full.iface P) s ((BOp.cleanup now stale).abs tsi) = .ok (s', .ok, evs) := by
     simp only [BOp.abs, step, h]
   have hr : Reachable X tsi cfg s' :=
     Reachable.step s s' (BOp.cleanup now stale) .ok evs hs (by simpa [BOp.abs, Op.now] using hn) trivial hstep
@@ -91,14 +98,14 @@ theorem cleanup_total (X : Interfaces) (tsi : Nat) (cfg : Config) (hc : cfg.maxC
 
 /-- every field of `Interfaces` from the owners' lemmas: orecv's `TInv` machinery (Lemmas/ObjRecvPanicFree.lean) and wire's
     `toPkt_ofAlc_facts` (Props/C04WireAbs.lean) -/
-def interfaces : Interfaces where
+def interfaces (P : ObjRecv.Params) (D : ObjRecv.DzOK P) : Interfaces P where
   OInv := ObjRecv.TInv
   PktOK := ObjRecv.WfPkt
   FileOK := ObjRecv.WfFile
   inv_new := fun toi m hm => ObjRecv.tinv_new toi m hm
-  push_total := fun _ p hT hp => ObjRecv.tinv_push Full.params fullDzOK hT p hp
+  push_total := fun _ p hT hp => ObjRecv.tinv_push P D hT p hp
   attach_total := fun st id f hT hf => by
-    apply ObjRecv.tinv_attachFdt Full.params fullDzOK hT id f
+    apply ObjRecv.tinv_attachFdt P D hT id f
     cases f with
     | none => trivial
     | some e => exact hf e rfl
@@ -120,9 +127,9 @@ def interfaces : Interfaces where
 
 /-- a sufficient, checkable form of the FDT-side hypothesis: every File of the parsed instance announces
     Transfer-Length < 2^48 and, when it carries an OTI, an encoding symbol length < 2^16 -/
-theorem ansOK_of_ranges (ans : FdtAns)
+theorem ansOK_of_ranges (P : ObjRecv.Params) (D : ObjRecv.DzOK P) (ans : FdtAns)
     (h : ∀ fdt u, ans = .ok fdt u → ∀ files, fdt.files = some files → ∀ x ∈ files,
-      x.tlen < 2 ^ 48 ∧ ∀ o, x.oti = some o → o.esl < 2 ^ 16) : AnsOK interfaces ans := by
+      x.tlen < 2 ^ 48 ∧ ∀ o, x.oti = some o → o.esl < 2 ^ 16) : AnsOK (interfaces P D) ans := by
   intro fdt u hans toi x hg cc
   have hx : ∃ files, fdt.files = some files ∧ x ∈ files := by
     unfold FdtAbs.getFile at hg
@@ -139,38 +146,60 @@ theorem ansOK_of_ranges (ans : FdtAns)
 
 /-- **push_data_total, closed**: no component hypothesis left - only the caller's clock (`TimeSane`), the configuration range
     (`object_max_cache_size < 2^63`) and `AnsOK` on the XML-parser answers (see the file header). -/
-theorem push_data_total_closed (tsi : Nat) (cfg : Config) (hc : cfg.maxCache < 2 ^ 63)
-    (s : State Full.Any) (hs : Reachable interfaces tsi cfg s) (d : List UInt8) (now : Int) (hn : TimeSane now)
-    (ans : FdtAns) (hans : AnsOK interfaces ans) :
-    ∃ s' r evs, pushDataWhole tsi s d now ans = .ok (s', r, evs) ∧ Reachable interfaces tsi cfg s' :=
-  push_data_total interfaces tsi cfg hc s hs d now hn ans hans
+theorem push_data_total_closed (P : ObjRecv.Params) (D : ObjRecv.DzOK P) (tsi : Nat) (cfg : Config) (hc : cfg.maxCache < 2 ^ 63)
+    (s : State (Full.Any P)) (hs : Reachable (interfaces P D) tsi cfg s) (d : List UInt8) (now : Int) (hn : TimeSane now)
+    (ans : FdtAns) (hans : AnsOK (interfaces P D) ans) :
+    ∃ s' r evs, pushDataWhole tsi s d now ans = .ok (s', r, evs) ∧ Reachable (interfaces P D) tsi cfg s' :=
+  push_data_total (interfaces P D) tsi cfg hc s hs d now hn ans hans
 
-theorem cleanup_total_closed (tsi : Nat) (cfg : Config) (hc : cfg.maxCache < 2 ^ 63)
-    (s : State Full.Any) (hs : Reachable interfaces tsi cfg s) (now : Int) (hn : TimeSane now) (stale : Stale) :
-    ∃ s' evs, cleanupWhole s now stale = .ok (s', evs) ∧ Reachable interfaces tsi cfg s' :=
-  cleanup_total interfaces tsi cfg hc s hs now hn stale
+theorem cleanup_total_closed (P : ObjRecv.Params) (D : ObjRecv.DzOK P) (tsi : Nat) (cfg : Config) (hc : cfg.maxCache < 2 ^ 63)
+    (s : State (Full.Any P)) (hs : Reachable (interfaces P D) tsi cfg s) (now : Int) (hn : TimeSane now) (stale : Stale) :
+    ∃ s' evs, cleanupWhole s now stale = .ok (s', evs) ∧ Reachable (interfaces P D) tsi cfg s' :=
+  cleanup_total (interfaces P D) tsi cfg hc s hs now hn stale
 
 /-- in every reachable state, every ObjectReceiver of the registry is unfaulted and satisfies orecv's invariant `TInv`
     (partition = `block_partitioning(OTI)`, exact allocation counters, per-block facts, ranges) -/
-theorem reachable_objects_healthy (tsi : Nat) (cfg : Config) (hc : cfg.maxCache < 2 ^ 63) (s : State Full.Any)
-    (hs : Reachable interfaces tsi cfg s) :
-    ∀ toi (o : Full.Obj), (toi, Sum.inr o) ∈ s.objects → o.fault = false ∧ ObjRecv.TInv o.st := by
+theorem reachable_objects_healthy (P : ObjRecv.Params) (D : ObjRecv.DzOK P) (tsi : Nat) (cfg : Config) (hc : cfg.maxCache < 2 ^ 63) (s : State (Full.Any P))
+    (hs : Reachable (interfaces P D) tsi cfg s) :
+    ∀ toi (o : (Full.Obj P)), (toi, Sum.inr o) ∈ s.objects → o.fault = false ∧ ObjRecv.TInv o.st := by
   intro toi o hmem
-  exact (reachable_winv interfaces cfg hc tsi s hs).objs (toi, .inr o) hmem
+  exact (reachable_winv (interfaces P D) cfg hc tsi s hs).objs (toi, .inr o) hmem
 
 /-- ... and so is the FDT object (TOI 0, since recv made it an `ObjRecv` object: `Full.push0`) inside every FDT-instance
     receiver, under reception or current -/
-theorem reachable_fdt_objects_healthy (tsi : Nat) (cfg : Config) (hc : cfg.maxCache < 2 ^ 63) (s : State Full.Any)
-    (hs : Reachable interfaces tsi cfg s) :
-    (∀ kf ∈ s.fdtReceivers, ∀ o : Full.Obj, kf.2.obj = some (Sum.inr o) → o.fault = false ∧ ObjRecv.TInv o.st) ∧
-    (∀ f ∈ s.fdtCurrent, ∀ o : Full.Obj, f.obj = some (Sum.inr o) → o.fault = false ∧ ObjRecv.TInv o.st) := by
-  have hw := (reachable_winv interfaces cfg hc tsi s hs).fobjs
+theorem reachable_fdt_objects_healthy (P : ObjRecv.Params) (D : ObjRecv.DzOK P) (tsi : Nat) (cfg : Config) (hc : cfg.maxCache < 2 ^ 63) (s : State (Full.Any P))
+    (hs : Reachable (interfaces P D) tsi cfg s) :
+    (∀ kf ∈ s.fdtReceivers, ∀ o : (Full.Obj P), kf.2.obj = some (Sum.inr o) → o.fault = false ∧ ObjRecv.TInv o.st) ∧
+    (∀ f ∈ s.fdtCurrent, ∀ o : (Full.Obj P), f.obj = some (Sum.inr o) → o.fault = false ∧ ObjRecv.TInv o.st) := by
+  have hw := (reachable_winv (interfaces P D) cfg hc tsi s hs).fobjs
   exact ⟨fun kf hkf o ho => hw.2 kf hkf _ ho, fun f hf o ho => hw.1 f hf _ ho⟩
 
-/-- non-vacuity: a history is admissible (garbage bytes, then a cleanup) and the state it reaches is `Reachable` -/
-example : ∃ s, Reachable interfaces 1 ⟨0, false, true, 1024, true, true⟩ s ∧ s.objects = [] := by
+/-- non-vacuity: a history is admissible (garbage bytes) and the state it reaches is `Reachable`, for every parameter set -/
+example (P : ObjRecv.Params) (D : ObjRecv.DzOK P) :
+    ∃ s, Reachable (interfaces P D) 1 ⟨0, false, true, 1024, true, true⟩ s ∧ s.objects = [] := by
   refine ⟨_, Reachable.step _ _ (BOp.data [0, 0, 1] 1700000000000000 .err) .err [] Reachable.init
     (by simp [BOp.abs, Op.now, TimeSane]) (by intro fdt u h; cases h) (by rfl), rfl⟩
+
+/-- non-vacuity of the hypothesis `D : DzOK P` (review batch 3: the earlier constant-fuel `DzOK` was unsatisfiable for any
+    decompressor that produces data): (a) the `recv` driver's degenerate parameters, (b) parameters whose decompressor hands out
+    every byte it is given, (c) the `orecv` driver's table decompressor for any table - (b), (c) with ANY codec and writer
+    environment (`Lemmas/DrainObjInst.lean`) -/
+example : Nonempty (ObjRecv.DzOK Full.params0) := ⟨dzOK0⟩
+
+example (P0 : ObjRecv.Params) (h : P0.dzRead = Flute.Lemmas.DrainObj.idRead) :
+    ∃ P : ObjRecv.Params, P.dzRead = Flute.Lemmas.DrainObj.idRead ∧ P.codec = P0.codec ∧ P.env = P0.env ∧
+      Nonempty (ObjRecv.DzOK P) := Flute.Lemmas.DrainObj.dzOK_identity_satisfiable P0 h
+
+example (P0 : ObjRecv.Params) (ztab : List (FecDec.Bytes × FecDec.Bytes × Bool))
+    (h : P0.dzRead = Flute.Drv.Orecv.idealDz ztab) :
+    ∃ P : ObjRecv.Params, P.dzRead = Flute.Drv.Orecv.idealDz ztab ∧ P.codec = P0.codec ∧ P.env = P0.env ∧
+      Nonempty (ObjRecv.DzOK P) := Flute.Lemmas.DrainObj.dzOK_ideal_satisfiable P0 ztab h
+
+/-- the instance the `recv` driver executes (`Full.params0`: No-Code only, inflate answers `Err`, writer never fails) -/
+example (tsi : Nat) (cfg : Config) (hc : cfg.maxCache < 2 ^ 63) (s : State (Full.Any Full.params0))
+    (hs : Reachable (interfaces Full.params0 dzOK0) tsi cfg s) (d : List UInt8) (now : Int) (hn : TimeSane now) :
+    ∃ s' r evs, pushDataWhole tsi s d now .err = .ok (s', r, evs) ∧ Reachable (interfaces Full.params0 dzOK0) tsi cfg s' :=
+  push_data_total_closed Full.params0 dzOK0 tsi cfg hc s hs d now hn .err (by intro fdt u h; cases h)
 
 /-! ### allocation, in the honest form
 
@@ -192,18 +221,18 @@ example : ∃ s, Reachable interfaces 1 ⟨0, false, true, 1024, true, true⟩ s
         this model at all - measured by engine `recv` only. -/
 
 /-- **alloc_bounded (whole composition).**  f₁ per call and f₂ in every reachable state, for every byte-level history. -/
-theorem alloc_bounded (tsi : Nat) (cfg : Config) (hc : cfg.maxCache < 2 ^ 63) (s : State Full.Any)
-    (hs : Reachable interfaces tsi cfg s) :
-    (∀ toi (o : Full.Obj), (toi, Sum.inr o) ∈ s.objects →
+theorem alloc_bounded (P : ObjRecv.Params) (D : ObjRecv.DzOK P) (tsi : Nat) (cfg : Config) (hc : cfg.maxCache < 2 ^ 63) (s : State (Full.Any P))
+    (hs : Reachable (interfaces P D) tsi cfg s) :
+    (∀ toi (o : (Full.Obj P)), (toi, Sum.inr o) ∈ s.objects →
         ObjRecv.wsum o.st.blocks ≤ o.st.maxSize + 2 * 2 ^ 48 ∧ o.st.maxSize < 2 ^ 63) ∧
-    (∀ (b : BOp) s' r evs, step Full.iface s (b.abs tsi) = .ok (s', r, evs) →
+    (∀ (b : BOp) s' r evs, step (Full.iface P) s (b.abs tsi) = .ok (s', r, evs) →
         s'.objects.length ≤ s.objects.length + 1 ∧ s'.fdtReceivers.length ≤ s.fdtReceivers.length + 1) := by
   constructor
   · intro toi o hmem
-    have hT := (reachable_objects_healthy tsi cfg hc s hs toi o hmem).2
+    have hT := (reachable_objects_healthy P D tsi cfg hc s hs toi o hmem).2
     exact ⟨by simpa [ObjRecv.BL] using hT.blocks_bounded, hT.max⟩
   · intro b s' r evs h
-    have hg := step_growth Full.iface s s' _ r evs h
+    have hg := step_growth (Full.iface P) s s' _ r evs h
     exact ⟨hg.1, hg.2.1⟩
 
 /-! ### the ring island, connected
@@ -268,10 +297,10 @@ theorem dz_ring_new_and_read (pkt : List Nat) (hl : pkt.length < 2 ^ 62) :
 theorem multi_push_total_full (cfg : Config) (timeout : Nat) (b : Bool) (hist : List MultiRecv.BOp)
     (hhist : ∀ o ∈ hist, Flute.Props.C04.Multi.BOpOK o) (hlen : hist.length + 1 < 2 ^ 64) (ep : Flute.Endpoint)
     (d : List UInt8) (now : Int) (hn : TimeSane now) (ans : FdtAns) :
-    let M := MultiRecv.recvMachine Full.iface cfg timeout
+    let M := MultiRecv.recvMachine (Full.iface P) cfg timeout
     let s := MultiRecv.run M (MultiRecv.State.new b) (hist.map MultiRecv.BOp.abs)
     ∃ s' r, MultiRecv.pushBytes M (MultiRecv.recvEnv now ans) s ep (d.map UInt8.toNat) = .ok (s', r) ∧
       r ≠ MultiRecv.Res.panic ∧ (∀ o ∈ MultiRecv.newOuts s s', o.2.res ≠ none) :=
-  Flute.Props.C04.Multi.multi_push_total Full.iface Full.completeSound cfg timeout b hist hhist hlen ep d now hn ans
+  Flute.Props.C04.Multi.multi_push_total (Full.iface P) (Full.completeSound P) cfg timeout b hist hhist hlen ep d now hn ans
 
 end Flute.Props.C04.Whole
